@@ -8,13 +8,14 @@
 (* deciders that judge real observations:                                  *)
 (*   Erasable (C02), HookArgsFaithful (C03), AllSitesHooked (C04),         *)
 (*   OnlyEnabledTouched (C05), Hygienic (C06), DirectivesPreserved (C07),  *)
-(*   StatusMatchesContent (C12), CountEqualsHookSites (C15).               *)
+(*   StatusMatchesContent (C12), CountEqualsHookSites (C15),               *)
+(*   EffectOrderPreserved (C01: the symbolic order of effects).            *)
 (* Every enumerated program is also emitted (REPLAY) and replayed into the *)
 (* real rewriter, where TraceStatic.tla compares the observed output with  *)
 (* the model's prediction: the design result transfers to the code exactly *)
 (* for the programs on which the model does not drift.                     *)
 (***************************************************************************)
-EXTENDS Sites, Hygiene, Rewriter, Json
+EXTENDS EffectOrder, Hygiene, Rewriter, Json
 
 CONSTANTS CfgName, Depth
 
@@ -169,10 +170,18 @@ Judge(p) ==
            DirectivesPreserved == ~modified \/ DirList(out) = DirList(p)
            StatusMatchesContent == modified <=> (Len(marks) > 0)
            CountEqualsHookSites == pred.count = (IF Cfg.verbosity = "OFF" THEN 0 ELSE Cardinality(pairs))
+           effOut == EffectsOf(out, inj, TRUE, {})
+           bare == {sites[i].id : i \in {j \in idx : sites[j].k = "bare" /\ sites[j].id \in hooked}}
+           EffectOrderPreserved ==
+             \/ ~modified
+             \/ FirstEffectDiff(EffectsOf(p, {}, FALSE, {}), effOut, 1) = ""
+             \* the named deviations of the design: D6, D7b, D21, D23
+             \/ m.devs # {} \/ (\E i \in 1..Len(marks) : marks[i].hw \in DevWhys) \/ HasOrigin(e, D21Mark)
+             \/ (bare # {} /\ FirstEffectDiff(EffectsOf(p, {}, FALSE, bare), effOut, 1) = "")
        IN /\ Erasable /\ HookArgsFaithful /\ AllSitesHooked /\ OnlyEnabledTouched
-          /\ Hygienic /\ DirectivesPreserved /\ StatusMatchesContent /\ CountEqualsHookSites
+          /\ Hygienic /\ DirectivesPreserved /\ StatusMatchesContent /\ CountEqualsHookSites /\ EffectOrderPreserved
 
 DesignHolds == Judge(Numbered(prog))
-Emit == PrintT("REPLAY|" \o ToJson(prog))
-Inv == DesignHolds /\ Emit
+EmitReplay == PrintT("REPLAY|" \o ToJson(prog))
+Inv == DesignHolds /\ EmitReplay
 =============================================================================
